@@ -148,3 +148,41 @@ Proof.
   intros H. pose proof (write_line b H) as W. unfold write in *.
   destruct (write_calls b) as [cs| |]; try discriminate. exists cs. split; reflexivity.
 Qed.
+
+(* ------------------------------------------------------------------ *)
+(* the same line without its final LF, and with a CRLF line end         *)
+Lemma drop_cr_snoc s : drop_cr (s ++ [CR]) = s.
+Proof.
+  induction s as [|c r IH]; [reflexivity|].
+  destruct r as [|c' r'].
+  - reflexivity.
+  - change (drop_cr ((c :: c' :: r') ++ [CR])) with (c :: drop_cr ((c' :: r') ++ [CR])).
+    rewrite IH. reflexivity.
+Qed.
+
+Lemma do_line_cr n s : nob CR s -> do_line n (s ++ [CR]) = do_line n s.
+Proof. intros H. unfold do_line. rewrite drop_cr_snoc, (drop_cr_nob s H). reflexivity. Qed.
+
+Lemma relaid b : bed_ok b ->
+  exists line, write b = Ok (line ++ [LF])
+    /\ decode line TEOF = [Rec (first_n b)]
+    /\ decode (line ++ [CR; LF]) TEOF = [Rec (first_n b)].
+Proof.
+  intros Hok. pose proof Hok as [Hn Hf]. exists (line_of b).
+  assert (HLF : nob LF (line_of b)) by (apply line_nob; [exact Hok | discriminate | reflexivity]).
+  assert (HCR : nob CR (line_of b)) by (apply line_nob; [exact Hok | discriminate | reflexivity]).
+  split; [apply write_line, Hn|]. split.
+  - unfold decode, rs_lines. rewrite (split_on_free LF _ HLF). cbn [removelast last dec_lines].
+    rewrite (do_line_written 0 b Hok) by (left; reflexivity). reflexivity.
+  - unfold decode, rs_lines.
+    match goal with
+    | |- context [split_on LF ?t] =>
+      assert (E : t = (line_of b ++ [CR]) ++ LF :: []) by (rewrite <- app_assoc; reflexivity);
+      rewrite E
+    end.
+    rewrite split_on_app.
+    + cbn [split_on removelast last dec_lines].
+      rewrite (do_line_cr 0 _ HCR), (do_line_written 0 b Hok) by (left; reflexivity).
+      reflexivity.
+    + apply nob_app; [exact HLF|]. apply nob_cons; [reflexivity | apply nob_nil].
+Qed.
